@@ -251,7 +251,7 @@ def gen_init(run):
     """every read position x variable kind, the variable never assigned by the program, initialize_vars=True (strict)."""
     from vf.checks.c10 import POSITIONS
     cases = []
-    for nm in ("V", "VX", "V1"):
+    for nm in ("V", "VX", "V1", "SQ", "PI", "DO", "SQX"):
       for pname, applies, tpl in POSITIONS:
         if pname in ("assign-target", "read", "input", "line-input", "for"):
             continue
